@@ -531,7 +531,7 @@ Inductive texpr : Set :=
 		fmt.Fprintf(&sb, "Definition %s : texpr := %s. (* %s  at %s *)\n", e.CoqName(), coqExpr(e.E), strings.ReplaceAll(e.Src, "*)", "* )"), e.Where)
 	}
 	sb.WriteString("\n")
-	sb.WriteString("\n(* Literals written inline in function bodies of ./common/... and ./contracts/... , in source\n   order: integer/character literals (with repetitions) and string literals without a space. *)\n")
+	sb.WriteString("\n(* Literals written inline in function bodies of ./common/... and ./contracts/... , in source\n   order: integer/character literals (with repetitions) and string literals that are not messages\n   (no space inside, or nothing but spaces). *)\n")
 	seenL := map[string]int{}
 	for _, l := range p.Lits {
 		base := "p_" + l.Pkg + "_" + l.Func
